@@ -984,7 +984,11 @@ impl<'p> Interp<'p> {
         // globals are initialised in canonical item order (the generator emits them in dependency order)
         let mut act = Act { locals: Vec::new(), captured: Rc::new(Vec::new()) };
         self.self_stack.push(usize::MAX);
-        for it in &p.items {
+        // function definitions have no evaluation effects: define them first so that
+        // the order of the remaining initialisers is the only order that matters
+        let mut order: Vec<&Item> = p.items.iter().filter(|it| matches!(it, Item::Global { init: Expr::Lambda(_), .. })).collect();
+        order.extend(p.items.iter().filter(|it| matches!(it, Item::Global { init, .. } if !matches!(init, Expr::Lambda(_)))));
+        for it in order {
             if let Item::Global { b, init } = it {
                 match self.eval_stmt_expr(&mut act, init) {
                     Ok(Ok(v)) => {
